@@ -892,9 +892,44 @@ class SimSelector(selectors._BaseSelectorImpl):  # type: ignore[name-defined,mis
                 out.append((key, ev))
         return out
 
+    def _select_threaded(self, timeout: float | None, sched: Any):
+        """select() as a simulated thread (vsim.threads): blocking hands the baton to the scheduler; virtual time only
+        advances when every thread is blocked"""
+        w = self.world
+        if self.is_loop:
+            w.counters["loop_iterations"] += 1
+            for hook in list(w.iteration_hooks):
+                hook()
+        w.run_due()
+
+        def woken() -> bool:
+            return self.loop is not None and getattr(self.loop, "_sim_woken", False)
+
+        ready = self._ready_now()
+        if ready or woken() or (timeout is not None and timeout <= 0):
+            if timeout is not None and timeout <= 0 and not ready:
+                w.zero_wait()
+            sched.yield_point("select")
+            ready = self._ready_now()
+        else:
+            w.positive_wait()
+            deadline = None if timeout is None else w.now + timeout
+            sched.block(lambda: bool(self._ready_now()) or woken(), deadline, "select")
+            ready = self._ready_now()
+        if woken():
+            self.loop._sim_woken = False
+        if len(ready) > 1 or (ready and timeout is not None and timeout <= 0):
+            ready = self._perturb(ready, may_be_empty=timeout is not None and timeout <= 0)
+        return ready
+
     def select(self, timeout: float | None = None):
         w = self.world
         self.calls += 1
+        sched = getattr(w, "sched", None)
+        if sched is not None and sched.active and not sched.aborting:
+            if self.calls > self.max_calls:
+                w.fail(StepCap(f"selector call cap {self.max_calls} reached at t={w.now}"))
+            return self._select_threaded(timeout, sched)
         if self.calls > self.max_calls:
             w.fail(StepCap(f"selector call cap {self.max_calls} reached at t={w.now}"))
         if self.is_loop:
